@@ -142,7 +142,7 @@ def worker(args):
     return dict(sub=sub.dump(), states=ex.states, transitions=ex.transitions, executions=ex.executions)
 
 def run(ctx):
-    agg = sx.run_catalogue(ctx, worker)
+    agg = sx.run_catalogue(ctx, worker, fixtures=('populated', 'empty', 'populated-seeds'))
     ctx.guard('failing calls compared', ctx.counters.get('failing_calls_compared', 0), 200)
     ctx.guard('distinct exception classes among failing calls',
               len([k for k in ctx.counters if k.startswith('exc:')]), 3)
